@@ -239,6 +239,11 @@ class ExprMixin:
         k = to_val(k_sv)
         h = st.h
         elem = d_sv.ty.elem if d_sv.ty else None
+        ck = self.const_str(k_sv)
+        if d_sv.ty is not None and d_sv.ty.rec is not None and ck is not None and ck in d_sv.ty.rec:
+            elem = d_sv.ty.rec[ck]
+            if d_sv.ty.req and ck in d_sv.ty.req:
+                st.assume(h.has(d, k))        # TYPES: required key of a record-typed dict
         if strict:
             self.side_raise(st, 'KeyError', z3.Not(h.has(d, k)), 'dict[key]')
             return self.elem_sv(h.val(d, k), elem, st)
@@ -249,6 +254,15 @@ class ExprMixin:
         if present.kind == 'ref':
             st.assume(z3.Implies(h.has(d, k), z3.And(present.t >= 0, present.t < h.alloc)))
         return merge_sv(h.has(d, k), present, dv)
+
+    def const_str(self, sv: SV):
+        if sv.kind != 'str' or sv.t is None:
+            return None
+        from .theory import _str_consts
+        for lit, c in _str_consts.items():
+            if z3.eq(c, sv.t):
+                return lit
+        return None
 
     def dict_del(self, d, k_sv: SV, st: State):
         k = to_val(k_sv)
@@ -349,6 +363,8 @@ class ExprMixin:
             if c is not None:
                 return SV('func', py=(o.py, attr))
             raise Unsupported('class attribute %s.%s' % (o.py, attr))
+        if o.kind == 'val' and o.ty is not None and o.ty.kind in ('list', 'dict', 'set'):
+            o = sv_ref(self.as_ref(o, st, '.' + attr), NonOpt(o.ty))
         if o.kind == 'ref' and o.cls in ('list', 'dict', 'set'):
             return SV('func', py=('bound', o, attr))
         if o.kind == 'str':
@@ -384,7 +400,7 @@ class ExprMixin:
             raise Unsupported('tuple index')
         if o.kind == 'val' and o.ty is not None and o.ty.kind in ('dict', 'list'):
             a = self.as_ref(o, st, 'subscript')
-            o = sv_ref(a, T(o.ty.kind, o.ty.cls, o.ty.elem, o.ty.key))
+            o = sv_ref(a, NonOpt(o.ty))
         if o.kind == 'ref' and o.cls == 'dict':
             return self.dict_get(o, k, st)
         if o.kind == 'ref' and o.cls == 'list':
@@ -484,7 +500,7 @@ class ExprMixin:
             return z3.Or(*[self.eq(x, y, st) for y in cont.elts]) if cont.elts else z3.BoolVal(False)
         if cont.kind == 'val' and cont.ty is not None and cont.ty.kind in ('list', 'dict'):
             a = self.as_ref(cont, st, 'in')
-            cont = sv_ref(a, T(cont.ty.kind, cont.ty.cls, cont.ty.elem, cont.ty.key))
+            cont = sv_ref(a, NonOpt(cont.ty))
         if cont.kind == 'ref' and cont.cls == 'list':
             return self.list_contains(cont.t, x, st)
         if cont.kind == 'ref' and cont.cls in ('dict', 'set'):
